@@ -233,6 +233,18 @@ func runC10(e *Engine, g G, o RunOpt) RunInfo {
 				first[raw] = i + 1
 			}
 		}
+		latest := map[string]int{}
+		for i, raw := range w {
+			latest[raw] = i + 1
+		}
+		for _, r := range raws {
+			// every acknowledgement has been processed by now: what the server had received when it
+			// computed the largest h is acknowledged, whichever goroutine held the queue at that moment
+			if p, ok := latest[r]; ok && p <= sentH {
+				e.Violate("C10", "acknowledged-stanza-still-held", "%s: %s was last transmitted at position %d, the server has acknowledged %d stanzas, yet it is still held", when, shortStz([]string{r}), p, sentH)
+				break
+			}
+		}
 		for raw := range accepted {
 			if inQ[raw] > 1 {
 				e.Violate("C10", "held-twice", "%s: %s is held %d times", when, shortStz([]string{raw}), inQ[raw])
